@@ -13,12 +13,16 @@ NAMESPACE = 'Props.C17'
 LEAN_CONE = ['PncModel.Interp', 'PncProofs.InterpLemmas', 'PncProofs.SigmaLemmas', 'PncProofs.C17']
 LEMMA_FILES = ['PncProofs/InterpLemmas.lean', 'PncProofs/SigmaLemmas.lean']
 REQUIRED_THEOREMS = ['sum_one', 'nonneg', 'linear_exact', 'linear_exact_inside', 'identity',
-                     'sum_one_any', 'nonneg_any', 'cover', 'thickness', 'flux', 'mass', 'const']
+                     'sum_one_any', 'nonneg_any', 'cover', 'thickness', 'flux', 'mass', 'const', 'apply_linear', 'apply_const']
 RULE = ('weights: strictly monotonic sources (ascending and descending, 2..7 nodes, spacings powers of two '
         'so scipy/numpy float arithmetic is exact), dyadic targets at nodes, between nodes and outside both '
         'ends, extrapolate on/off; sigma: descending edge lists from 1 to 0 with power-of-two thicknesses, '
-        'dyadic target edges sharing or not sharing top/bottom, coincident and interleaved; apply: the '
-        'matrices applied through interpDimension / interpSigma on token data; non-trivial = at least one '
+        'dyadic target edges sharing or not sharing top/bottom, coincident and interleaved; apply: IOAPI interpSigma '
+        '(conserve and linear, with and without a change of the model top vgtop, target edges naming the source pressures '
+        'or not) on token data; interpdim: interpDimension with a 1-D coordinate and with an N-D coordinate variable (one '
+        'weight matrix per column, identical or different source columns, different targets per column), every column '
+        'against the Lean weights, numpy.interp and a linear profile; bpchsigma: GEOS-Chem interpSigma on generated 47-level '
+        'files incl. thin surface layers outside the source midpoints; non-trivial = at least one '
         'target strictly between two nodes (weights) / at least one target layer overlapping two source '
         'layers (sigma)')
 ASSUMPTIONS = ['scipy.interpolate.interp1d linear evaluation and numpy.interp are exact on the generated '
@@ -95,18 +99,90 @@ def _sigma_case(rng, kind='sigma'):
     return c
 
 
+def _interpdim_case(rng):
+    """interpDimension along a named dimension: a 1-D coordinate with a 1-D target, or an N-D coordinate variable
+    (z, x) with a target variable of the same dimensions — one weight matrix per column"""
+    nz, ncol = rng.randint(2, 5), rng.randint(1, 3)
+    nd = rng.random() < 0.6
+    samesrc = rng.random() < 0.5          # the source columns are identical (levels broadcast over the grid)
+    base = _src(rng, nz)
+    srcs = [base if (samesrc or not nd) else _src(rng, nz) for _ in range(ncol)]
+    if rng.random() < 0.3:
+        srcs = [c[::-1] for c in srcs]
+    nt = rng.randint(1, 4)
+    tg = []
+    for k in range(ncol if nd else 1):
+        xs = srcs[k]
+        lo, hi = min(xs), max(xs)
+        col = []
+        for _ in range(nt):
+            r = rng.random()
+            if r < 0.2:
+                col.append(rng.choice(xs))
+            elif r < 0.8:
+                col.append(lo + (hi - lo) * Fraction(rng.randint(0, 16), 16))
+            else:
+                col.append(rng.choice([lo - Fraction(rng.randint(1, 8), 4), hi + Fraction(rng.randint(1, 8), 4)]))
+        tg.append(sorted(col, reverse=xs[0] > xs[-1]))
+    a, b = rng.randint(-4, 4), rng.randint(-5, 5)
+    return dict(kind='interpdim', nd=nd, extrapolate=rng.random() < 0.3,
+                srcs=[[lib.show_rat(v) for v in c] for c in srcs], tgts=[[lib.show_rat(v) for v in c] for c in tg],
+                a=a, b=b, data=[[rng.randint(-9, 9) for _ in range(nz)] for _ in range(ncol)])
+
+
+def _bpchsigma_case(rng):
+    """GEOS-Chem interpSigma (linear, default arguments): a tracer with 2 or 3 layers on the 47-level grid, target
+    edges inside those layers, half of the time with a thin surface layer whose midpoint lies outside the source
+    midpoints (edge value, never extrapolation)"""
+    return dict(kind='bpchsigma', nz=rng.choice([2, 3]), nlay=rng.randint(1, 3), thin=rng.random() < 0.6,
+                frac=[rng.randint(1, 15) for _ in range(3)], vgtop=rng.choice([5000., 10000., 1.]),
+                data=[rng.randint(-9, 9) for _ in range(3)], seed=rng.randrange(1 << 30))
+
+
 def gen(rng, tier):
     n = 300 if tier == 'quick' else 12000
     out = []
     for i in range(n):
-        r = i % 5
+        r = i % 8
         if r in (0, 1):
             out.append(_weights_case(rng))
         elif r in (2, 3):
             out.append(_sigma_case(rng))
+        elif r == 4:
+            c = _sigma_case(rng, 'apply')
+            # interpSigma of IOAPI files: conserve or linear, with or without a change of the model top
+            c['itype'] = rng.choice(['conserve', 'conserve', 'linear'])
+            c['vgtop'] = rng.choice([None, None, 5000, 10000, 2500])
+            c['same'] = rng.random() < 0.5       # target edges name the same pressures as the source edges
+            out.append(c)
+        elif r in (5, 6):
+            out.append(_interpdim_case(rng))
         else:
-            out.append(_sigma_case(rng, 'apply'))
+            out.append(_bpchsigma_case(rng) if i % 16 == 7 else _interpdim_case(rng))
     return out
+
+
+P0 = Fraction(101325)
+
+
+def _resigma(src, vgtop_old, vgtop_new):
+    """the source sigma edges expressed with another model top (exact)"""
+    dp0, dp1 = P0 - vgtop_old, P0 - vgtop_new
+    return [(s * dp0 + vgtop_old - vgtop_new) / dp1 for s in src]
+
+
+def _apply_grids(case):
+    """(source edges as the library sees them after the vgtop conversion, target edges), exact"""
+    src, dst = _f(case['src']), _f(case['dst'])
+    vt = case.get('vgtop')
+    if vt is not None and vt != 5000:
+        src2 = _resigma(src, Fraction(5000), Fraction(vt))
+        if case.get('same'):
+            dst = list(src2)
+        return src2, dst
+    if case.get('same'):
+        dst = list(src)
+    return src, dst
 
 
 def _f(xs):
@@ -122,6 +198,10 @@ def impl(case):
             w = getinterpweights(xs, nxs, extrapolate=case['extrapolate'])
             # as list of columns (one per target)
             return dict(cols=[[lib.show_rat(v) for v in w[:, j]] for j in range(w.shape[1])])
+        if case['kind'] == 'interpdim':
+            return _interpdim(case)
+        if case['kind'] == 'bpchsigma':
+            return _bpchsigma(case)
         src = np.array([float(v) for v in _f(case['src'])], dtype='f')
         dst = np.array([float(v) for v in _f(case['dst'])], dtype='f')
         if case['kind'] == 'sigma':
@@ -160,13 +240,120 @@ def _apply(case, src, dst):
     f.NVARS = 1
     setattr(f, 'VAR-LIST', 'O3'.ljust(16))
     f.updatemeta()
-    o = f.interpSigma(dst, interptype='conserve')
+    if case.get('itype'):
+        dst = np.array([float(v) for v in _apply_grids(case)[1]], dtype='d')
+        o = f.interpSigma(dst, vgtop=case.get('vgtop'), interptype=case['itype'])
+    else:
+        o = f.interpSigma(dst, interptype='conserve')
     nv = o.variables['O3']
     return dict(vals=[float(x) for x in nv[0, :, 0, 0]], const=[float(x) for x in nv[0, :, 0, 1]],
                 nlay=len(o.dimensions['LAY']), vglvls=[lib.show_rat(x) for x in o.VGLVLS])
 
 
+def _interpdim(case):
+    import PseudoNetCDF as pnc
+    srcs = [[float(Fraction(v)) for v in c] for c in case['srcs']]
+    tgts = [[float(Fraction(v)) for v in c] for c in case['tgts']]
+    nz, ncol, nt = len(srcs[0]), len(srcs), len(tgts[0])
+    f = pnc.PseudoNetCDFFile()
+    f.createDimension('z', nz)
+    f.createDimension('x', ncol)
+    data = np.array(case['data'], dtype='d').T                  # (z, x)
+    lin = np.array([[case['a'] * float(Fraction(v)) + case['b'] for v in c] for c in case['srcs']], dtype='d').T
+    if case['nd']:
+        zc = f.createVariable('ZH', 'd', ('z', 'x'))
+        zc[:] = np.array(srcs).T
+        for k, arr in (('A', data), ('LIN', lin)):
+            v = f.createVariable(k, 'd', ('z', 'x'))
+            v[:] = arr
+        w = f.createVariable('W', 'd', ('x',))
+        w[:] = np.arange(ncol)
+        g = pnc.PseudoNetCDFFile()
+        g.createDimension('z', nt)
+        g.createDimension('x', ncol)
+        tv = g.createVariable('ZH', 'd', ('z', 'x'))
+        tv[:] = np.array(tgts).T
+        o = f.interpDimension('z', tv, coordkey='ZH', extrapolate=case['extrapolate'])
+    else:
+        zc = f.createVariable('z', 'd', ('z',))
+        zc[:] = srcs[0]
+        for k, arr in (('A', data), ('LIN', lin)):
+            v = f.createVariable(k, 'd', ('z', 'x'))
+            v[:] = arr
+        w = f.createVariable('W', 'd', ('x',))
+        w[:] = np.arange(ncol)
+        o = f.interpDimension('z', np.array(tgts[0]), extrapolate=case['extrapolate'])
+    return dict(A=np.asarray(o.variables['A'][:]).T.tolist(), LIN=np.asarray(o.variables['LIN'][:]).T.tolist(),
+                coord=np.asarray(o.variables['ZH' if case['nd'] else 'z'][:]).T.tolist(),
+                W=np.asarray(o.variables['W'][:]).tolist(), nz=len(o.dimensions['z']))
+
+
+def _bpchsigma(case):
+    import contextlib
+    import io
+    import os
+    import random
+    import shutil
+    import tempfile
+    from .. import bpchfmt as B
+    from .. import camx
+    from PseudoNetCDF.geoschemfiles._bpch import bpch1
+    rng = random.Random(case['seed'])
+    c = B.gen(rng, maxt=1)
+    blk = dict(cat='IJ-AVG-$', off=0, nz=case['nz'], start=[1, 1, 1])
+    blk.update(dict(zip(('tid', 'name', 'scale', 'unit', 'carbon'), B.TRACERS[0][0])))
+    c.update(nt=1, nx=1, ny=1, blocks=[blk], start=[1, 1, 1], tperm=[0], modelname='GEOS5_47L', unit_in_file=True,
+             data=[[[camx.f32bits(float(x)) for x in case['data'][:case['nz']]]]])
+    d = tempfile.mkdtemp(prefix='c17b_', dir=camx.tmpdir())
+    try:
+        with lib.pnc_warnings(), contextlib.redirect_stdout(io.StringIO()):
+            p = os.path.join(d, 'a.bpch')
+            open(p, 'wb').write(B.encode(c))
+            B.tables(c, d)
+            f = bpch1(p, noscale=True)
+            etai = np.asarray(f.variables['etai_pressure'][:], dtype='d') * 100
+            my = (etai - case['vgtop']) / (etai[0] - case['vgtop'])
+            zs = (my[:-1] + my[1:]) / 2.
+            nz = case['nz']
+            # target edges between sigma = 1 and the midpoint of source layer nz
+            span = 1.0 - zs[nz - 1]
+            us = sorted({x / 16.0 for x in case['frac'][:case['nlay']]})
+            edges = [1.0] + ([1.0 - (1.0 - zs[0]) / 4.0] if case['thin'] else []) + [1.0 - u * span for u in us]
+            edges = sorted(set(edges), reverse=True)
+            if len(edges) < 2:
+                edges = [1.0, 1.0 - span]
+            vg = np.array(edges, dtype='d')
+            o = f.interpSigma(vg, vgtop=case['vgtop'])
+            key = [k for k in o.variables if k.startswith('IJ-AVG-$')][0]
+            got = np.asarray(o.variables[key][0, :, 0, 0], dtype='d').tolist()
+            nzs = ((vg[:-1] + vg[1:]) / 2.).tolist()
+            return dict(got=got, zs=zs.tolist(), nzs=nzs, data=[float(x) for x in case['data'][:nz]])
+    finally:
+        shutil.rmtree(d, True)
+
+
 def to_line(case, res):
+    if case['kind'] == 'interpdim':
+        k = 0
+        return 'c17 linear %d %s %s %s' % (1 if case['extrapolate'] else 0, lib.show_list(case['srcs'][k]),
+                                           lib.show_list(case['tgts'][0]), lib.show_list([str(x) for x in case['data'][k]]))
+    if case['kind'] == 'bpchsigma':
+        if 'zs' not in res:
+            return 'c17 linear 0 0,1 0 0,0'
+        return 'c17 linear 0 %s %s %s' % (lib.show_list([lib.show_rat(Fraction(x)) for x in res['zs']]),
+                                          lib.show_list([lib.show_rat(Fraction(x)) for x in res['nzs']]),
+                                          lib.show_list([lib.show_rat(Fraction(x)) for x in res['data']]))
+    if case['kind'] == 'apply' and case.get('itype'):
+        src, dst = _apply_grids(case)
+        if case['itype'] == 'linear':
+            zs = [(src[i] + src[i + 1]) / 2 for i in range(len(src) - 1)]
+            nzs = [(dst[i] + dst[i + 1]) / 2 for i in range(len(dst) - 1)]
+            if len(zs) < 2:
+                return 'c17 linear 0 0,1 0 0,0'
+            return 'c17 linear 0 %s %s %s' % (lib.show_list(zs, lib.show_rat), lib.show_list(nzs, lib.show_rat),
+                                              lib.show_list(case['data']))
+        return 'c17 conserve %s %s %s' % (lib.show_list(src, lib.show_rat), lib.show_list(dst, lib.show_rat),
+                                          lib.show_list(case['data']))
     if case['kind'] == 'weights':
         return 'c17 weights %d %s %s' % (1 if case['extrapolate'] else 0, lib.show_list(case['xs']),
                                           lib.show_list(case['nxs']))
@@ -182,6 +369,18 @@ def agree(case, out, res):
         return None if toks[0] == 'err' else 'impl raised %s, model %s' % (res['err'], out[:80])
     if toks[0] != 'ok':
         return 'model %s but impl returned' % out
+    if case['kind'] == 'interpdim':
+        return _agree_interpdim(case, res)
+    if case['kind'] == 'bpchsigma':
+        mv = [float(Fraction(x)) for x in toks[1].split(',')]
+        if len(mv) != len(res['got']):
+            return 'bpch interpSigma: %d layers, model %d' % (len(res['got']), len(mv))
+        for a, b in zip(mv, res['got']):
+            if abs(a - b) > 1e-6 * max(1.0, abs(a)):
+                return 'bpch interpSigma value model=%r impl=%r (source midpoints %s, targets %s)' % (a, b, res['zs'][:3], res['nzs'])
+        return None
+    if case['kind'] == 'apply' and case.get('itype') == 'linear' and len(case['src']) < 3:
+        return None         # a single source layer: interp1d needs two nodes (the library raises)
     if case['kind'] in ('weights', 'sigma'):
         mine = lib.show_rows(res['cols'])
         return None if toks[1] == mine else 'matrix model=%s impl=%s' % (toks[1], mine)
@@ -195,14 +394,77 @@ def agree(case, out, res):
                 return 'model 0/0, impl %r' % iv
         elif abs(float(Fraction(mv)) - iv) > 1e-5 * max(1.0, abs(iv)):
             return 'value model=%s impl=%r' % (mv, iv)
-    if res['vglvls'] != case['dst'] or res['nlay'] != len(case['dst']) - 1:
+    want = [lib.show_rat(x) for x in _apply_grids(case)[1]] if case.get('itype') else case['dst']
+    if res['nlay'] != len(want) - 1 or len(res['vglvls']) != len(want) or any(
+            abs(float(Fraction(a)) - float(Fraction(b))) > 1e-6 for a, b in zip(res['vglvls'], want)):
         return 'VGLVLS/NLAYS of the result: %s %s' % (res['vglvls'], res['nlay'])
+    return None
+
+
+def _agree_interpdim(case, res):
+    """every column against the Lean weights applied to that column's source/target coordinates"""
+    ncol = len(case['srcs'])
+    lines = []
+    for k in range(ncol):
+        t = case['tgts'][k if case['nd'] else 0]
+        for data in ([str(x) for x in case['data'][k]],
+                     [lib.show_rat(case['a'] * Fraction(v) + case['b']) for v in case['srcs'][k]]):
+            lines.append('c17 linear %d %s %s %s' % (1 if case['extrapolate'] else 0, lib.show_list(case['srcs'][k]),
+                                                     lib.show_list(t), lib.show_list(data)))
+    outs = lib.run_model(lines)
+    for k in range(ncol):
+        for j, key in enumerate(('A', 'LIN')):
+            o = outs[2 * k + j]
+            if not o.startswith('ok '):
+                return 'model %s' % o[:40]
+            mv = [Fraction(x) for x in o[3:].split(',')]
+            got = res[key][k]
+            if len(mv) != len(got) or any(Fraction(g) != m for g, m in zip(got, mv)):
+                return 'interpDimension column %d of %s: model %s impl %s' % (k, key, [str(x) for x in mv], got)
+    return None
+
+
+def _oracle_interpdim(case, res):
+    ncol = len(case['srcs'])
+    nt = len(case['tgts'][0])
+    if res['nz'] != nt:
+        return 'dimension z has length %d after interpolation to %d values' % (res['nz'], nt)
+    if res['W'] != list(range(ncol)):
+        return 'a variable without the interpolated dimension changed'
+    for k in range(ncol):
+        xs = [Fraction(v) for v in case['srcs'][k]]
+        t = [Fraction(v) for v in case['tgts'][k if case['nd'] else 0]]
+        lo, hi = min(xs), max(xs)
+        # the coordinate itself becomes the target (linear in itself)
+        coord = res['coord'][k] if case['nd'] else res['coord']
+        for j, tv in enumerate(t):
+            inside = lo <= tv <= hi
+            cl = tv if (inside or case['extrapolate']) else (lo if tv < lo else hi)
+            if Fraction(coord[j]) != cl:
+                return 'interpolated coordinate of column %d is %s at target %s' % (k, coord[j], tv)
+            if Fraction(res['LIN'][k][j]) != case['a'] * cl + case['b']:
+                return 'linear profile %d*z%+d not reproduced in column %d at %s: %s' % (case['a'], case['b'], k, tv, res['LIN'][k][j])
+            # plain numpy on the column
+            asc = xs[0] < xs[-1]
+            xp = [float(v) for v in (xs if asc else xs[::-1])]
+            fp = case['data'][k] if asc else case['data'][k][::-1]
+            if inside and abs(np.interp(float(tv), xp, fp) - res['A'][k][j]) > 1e-9:
+                return 'column %d at %s: %s, numpy.interp gives %s' % (k, tv, res['A'][k][j], np.interp(float(tv), xp, fp))
     return None
 
 
 def oracle(case, res):
     if 'err' in res:
+        if case['kind'] == 'apply' and case.get('itype') == 'linear' and len(case['src']) < 3:
+            return None
         return 'raised ' + res['err']
+    if case['kind'] == 'interpdim':
+        return _oracle_interpdim(case, res)
+    if case['kind'] == 'bpchsigma':
+        lo, hi = min(res['data']), max(res['data'])
+        if any(x < lo - 1e-9 or x > hi + 1e-9 for x in res['got']):
+            return 'interpolated values %s leave the range of the source values %s without extrapolation' % (res['got'], res['data'])
+        return None
     if case['kind'] == 'weights':
         xs, nxs = _f(case['xs']), _f(case['nxs'])
         a, b = case['a'], case['b']
@@ -227,6 +489,15 @@ def oracle(case, res):
                     return 'target equal to source node %d does not give unit weights: %s' % (k, w)
         return None
     src, dst = _f(case['src']), _f(case['dst'])
+    if case['kind'] == 'apply' and case.get('itype'):
+        src, dst = _apply_grids(case)
+        if case.get('same'):
+            # the target names the same pressures: the field must come back unchanged (both interpolation types)
+            data = [float(Fraction(v)) for v in case['data']]
+            if len(res['vals']) != len(data) or any(abs(a - b) > 1e-4 * max(1.0, abs(a)) for a, b in zip(data, res['vals'])):
+                return 'target edges equal to the source edges (vgtop %s): %s became %s' % (case.get('vgtop'), data, res['vals'])
+        if case['itype'] == 'linear':
+            return None
     shared = src[0] == dst[0] and src[-1] == dst[-1]
     dp = [src[i] - src[i + 1] for i in range(len(src) - 1)]
     ndp = [dst[i] - dst[i + 1] for i in range(len(dst) - 1)]
@@ -261,6 +532,10 @@ def classify(case, failure, model_out):
 
 
 def nontrivial(case, res):
+    if case['kind'] == 'interpdim':
+        return 'A' in res and len(case['srcs'][0]) > 2
+    if case['kind'] == 'bpchsigma':
+        return 'got' in res
     if 'cols' not in res:
         return case['kind'] == 'apply' and len(case['src']) > 2
     for c in res['cols']:
@@ -275,6 +550,10 @@ def distribution(recs):
         c = r['case']
         k = c['kind']
         d[k] = d.get(k, 0) + 1
+        if k in ('interpdim', 'bpchsigma'):
+            if k == 'interpdim':
+                d['interpdim_nd' if c['nd'] else 'interpdim_1d'] = d.get('interpdim_nd' if c['nd'] else 'interpdim_1d', 0) + 1
+            continue
         if k == 'weights':
             key = 'desc' if Fraction(c['xs'][0]) > Fraction(c['xs'][-1]) else 'asc'
             d[key] = d.get(key, 0) + 1
